@@ -141,6 +141,21 @@ def run(case, ctx):
                     call(m, rb, pb)
             except Exception:  # noqa: BLE001
                 pass
+        # the same two array objects scored again after an in-place edit (each call is judged by the monitor)
+        if i % 2 == 0 and pb.size > 2:
+            for m in ("DSC", "IOU", "RVD"):
+                try:
+                    with np.errstate(all="ignore"):
+                        call(m, rb, pb)
+                        flat = pb.reshape(-1)
+                        k = int(r.integers(0, flat.size))
+                        flat[k] = 1 - flat[k] if pb.dtype != bool else ~flat[k]
+                        flat[(k * 7 + 1) % flat.size] = 1
+                        call(m, rb, pb)
+                        ctx.count("evaluations", 2)
+                        ctx.count("C06.inplace_rescored")
+                except Exception:  # noqa: BLE001
+                    pass
         return
     if fam == "large":
         r = gen.rng(ctx.seed, "large", i)
